@@ -74,6 +74,7 @@ fn main() {
             "C06" => monitors::c06::replay(&args, &case, &mut rep),
             "C07" => monitors::c07::replay(&args, &case, &mut rep),
             "C08" => monitors::c08::replay(&args, &case, &mut rep),
+            "C09" => monitors::c09::replay(&args, &case, &mut rep),
             "C10" => monitors::c10::replay(&case, &mut rep),
             "C13" => monitors::c13::replay(&args, &case, &mut rep),
             "C14" => monitors::c14::replay(&case, &mut rep),
@@ -93,6 +94,7 @@ fn main() {
             "C06" => monitors::c06::run(&args, &mut rep),
             "C07" => monitors::c07::run(&args, &mut rep),
             "C08" => monitors::c08::run(&args, &mut rep),
+            "C09" => monitors::c09::run(&args, &mut rep),
             "C10" => monitors::c10::run(&args, &mut rep),
             "C13" => monitors::c13::run(&args, &mut rep),
             "C14" => monitors::c14::run(&args, &mut rep),
